@@ -27,6 +27,8 @@ pub mod streams;
 pub mod system_calls;
 pub mod term_stream;
 pub mod unify;
+#[cfg(feature = "verif_hooks")]
+pub mod verif_hooks;
 
 use crate::arena::*;
 use crate::arithmetic::*;
